@@ -93,6 +93,9 @@ impl Check for C20Binary {
         let val = prop_oneof![
             5 => (arb_gval(CharSet::Bmp, 2, 8), arb_spelling()).prop_map(|(v, sp)| serialise(&v, &sp)),
             3 => prop::sample::select(vec!["1", "true", "null", "\"a\"", "[]", "{}", "-0.5", "[1,2]", "{\"a\":1}"]).prop_map(|s| s.to_string()),
+            // rows larger than the 1 KiB / 8 KiB buffers of the standard output handle
+            1 => (1100usize..3000, prop::sample::select(vec!['x', 'y', ' '])).prop_map(|(n, c)| format!("\"{}\"", c.to_string().repeat(n))),
+            1 => (8200usize..9000).prop_map(|n| format!("[{}1]", "1,".repeat(n / 2))),
         ];
         let gap = prop_oneof![
             3 => Just(Vec::<BytesS>::new()),
@@ -165,6 +168,7 @@ impl Check for C20Binary {
             .class(["policy:ignore", "policy:stdout", "policy:stderr", "policy:panic"][case.policy as usize])
             .class(["sink:pipe", "sink:closed_pipe", "sink:dev_full"][case.sink as usize])
             .class_if(!case.sep.contains('\n'), "separator_without_line_feed")
+            .class_if(case.values.iter().any(|v| v.len() > 1024), "row_larger_than_1KiB")
             .obs(json!({"args": args.clone(), "exit": child.code, "stdout": esc_trunc(&child.stdout, 200), "stderr": esc_trunc(&child.stderr, 200)}));
         let fail = |m: String| CaseResult::Fail(format!("{} [args {:?} input {} sink {}]", m, args, esc_trunc(&input, 200), case.sink));
         if reference.res.is_panic() {
